@@ -31,6 +31,10 @@ RECIPES = [
      "full conjugate set not restored before the modal sum"),
     ("C02", "break", ["C02-R4"], UNC, "                        a_rb = self.invm[self._rb] * force[rb]", "                        a_rb = self.invm[rb] * force[rb]",
      "full-set index into the non-rf inverse mass"),
+    ("C02", "break", ["C02-R2"], BASE, "        return SimpleNamespace(d=d, v=v, a=a, f=freq)", "        return SimpleNamespace(d=d, v=a, a=v, f=freq)", "v and a swapped in the returned solution"),
+    ("C02", "break", ["C02-R2"], BASE, "            v = self.phi @ v\n            a = self.phi @ a\n        return SimpleNamespace(d=d, v=v, a=a, f=freq)",
+     "            v = self.phi @ v\n        return SimpleNamespace(d=d, v=v, a=a, f=freq)", "pre_eig: acceleration not transformed back"),
+    ("C02", "break", ["C02-R2"], UNC, "        return self._solution_freq(d, v, a, freq)", "        return self._solution_freq(d, a, v, freq)", "SolveUnc.fsolve hands v and a over swapped"),
     # ---- neutral
     ("C02", "neutral", [], UNC, "                pvnz = freqw != 0", "                pvnz = ~(freqw == 0)", "mask as negated equality"),
     ("C02", "neutral", [], UNC, '            if "d" in incrb or "v" in incrb:', '            if not ("d" not in incrb and "v" not in incrb):', "De Morgan on the incrb test"),
